@@ -11,7 +11,7 @@ Local Open Scope nat_scope.
 
 (* a flat layer: what flatten produces from a well-formed, simple type *)
 Definition flat_f (f : sfield) : Prop :=
-  exported (sf_name f) = true /\ wf_ty (sf_ty f) = true /\ leaf_ok (sf_ty f) = true.
+  xexported (sf_name f) = true /\ wf_ty (sf_ty f) = true /\ leaf_ok (sf_ty f) = true.
 
 Definition cast_target (lt : ty) : outcome ty :=
   match lt with TSlice _ _ | TMap _ _ _ => Ok lt | t => type_elem t end.
@@ -247,13 +247,13 @@ Proof.
   - intros n tg an t [IHt _] r IHr W names Ag. simpl in W.
     apply andb_true_iff in W as [W Wr]. apply andb_true_iff in W as [W _]. apply andb_true_iff in W as [Wex Wt].
     change (fspec_fields E sh1 env1 0%N names (FCons n tg an t r)) with
-      (x <- (if negb (exported n) then Ok (zero t)
+      (x <- (if negb (xexported n) then Ok (zero t)
              else p <- fspec_ty E sh1 env1 0%N (if an then names else names ++ [n]) t ;;
                   if aliased sh1 tg then a <- fspec_ty E sh1 env1 0%N (names ++ [n ++ alias_field_suffix]) t ;; pick n t p a
                   else Ok p) ;;
        rest <- fspec_fields E sh1 env1 0%N names r ;; Ok (x :: rest)).
     change (fspec_fields E sh2 env2 0%N names (FCons n tg an t r)) with
-      (x <- (if negb (exported n) then Ok (zero t)
+      (x <- (if negb (xexported n) then Ok (zero t)
              else p <- fspec_ty E sh2 env2 0%N (if an then names else names ++ [n]) t ;;
                   if aliased sh2 tg then a <- fspec_ty E sh2 env2 0%N (names ++ [n ++ alias_field_suffix]) t ;; pick n t p a
                   else Ok p) ;;
